@@ -26,7 +26,7 @@ RULE = ("agent arm: 0-6 initial agents, 1-3 mutator systems at priorities above/
         "in ~25% of runs, real temporary files in ~10%; non-trivial = population changed inside >=1 timestep before the "
         "collector's turn (agent arm) / >=2 complete flush cycles with write_count>=1 and >=1 empty collection (file "
         "arm); distinct = abstract schedule shape"
-        "; also: composite function that keeps and updates ONE dict, empty-string records, environment object replaced between timesteps, systems removed next to the collector, stress runs with large write_count; rare switch for known finding F7, per-agent / composite functions given as falsy callable objects, a model class with its own `timestep` attribute, file collectors whose collect() returns a value or that override write_records()")
+        "; also: composite function that keeps and updates ONE dict, empty-string records, environment object replaced between timesteps, systems removed next to the collector, stress runs with large write_count; rare switch for known finding F7, per-agent / composite functions given as falsy callable objects, a model class with its own `timestep` attribute, file collectors whose collect() returns a value or that override write_records(), append mode spelled 'at' / 'a+' / 'ta'")
 COMPONENTS = {"real": ["ECAgent.Collectors.AgentCollector.collect", "FileCollector.execute/write_records", "Collector",
                        "ECAgent.Core scheduler and Environment", "builtins.open + OS (real-file runs only)"],
               "stub": ["open() as seen by ECAgent.Collectors -> simkit.simdisk.SimDisk (durable at flush/close/buffer "
@@ -135,6 +135,7 @@ def generate(rng, tier):
         for c_ in sc["collectors"]:
             c_["returns"] = rng.random() < 0.15
             c_["own_writer"] = rng.random() < 0.2
+            c_["filemode"] = rng.choice(["a", "a", "a", "a", "at", "a+", "ta"])      # every spelling open() takes as "append"
     return sc
 
 
@@ -406,7 +407,7 @@ def run_agent_arm(sc, ctx):
 
 class RecFile(COL.FileCollector):
     def __init__(self, spec, model, world, filename):
-        kw = {"frequency": spec["freq"], "start": spec["start"], "end": spec["end"], "filemode": "a",
+        kw = {"frequency": spec["freq"], "start": spec["start"], "end": spec["end"], "filemode": spec.get("filemode", "a"),
               "write_count": spec["write_count"], "clear_records_on_write": True}
         if spec["prio"] is not None:
             kw["priority"] = spec["prio"]
